@@ -21,16 +21,26 @@ Definition name_in_range (n : jname) : bool :=
   && (0 <=? n_ig n) && (n_ig n <? 8).
 
 Definition is_byte (x : Z) : bool := (0 <=? x) && (x <? 256).
+(* the configuration types are wider than the NAME fields (u16 manufacturer code, u8 elsewhere): only the bits of each field
+   reach the wire, a wide value never spills into the neighbouring field *)
+Definition name_norm (n : jname) : jname :=
+  {| n_mfr := n_mfr n mod 2048; n_finst := n_finst n mod 32; n_ecu := n_ecu n mod 8; n_func := n_func n mod 256;
+     n_vs := n_vs n mod 128; n_vsi := n_vsi n mod 16; n_ig := n_ig n mod 8 |}.
+Definition name_cfg_range (n : jname) : bool :=
+  (0 <=? n_mfr n) && (n_mfr n <? 65536) && (0 <=? n_finst n) && (n_finst n <? 256) && (0 <=? n_ecu n) && (n_ecu n <? 256)
+  && (0 <=? n_func n) && (n_func n <? 256) && (0 <=? n_vs n) && (n_vs n <? 256) && (0 <=? n_vsi n) && (n_vsi n <? 256)
+  && (0 <=? n_ig n) && (n_ig n <? 256).
+
 
 Definition c20_wf (c : acase) : bool :=
-  is_byte (ac_addr c) && name_in_range (ac_name c)
+  is_byte (ac_addr c) && name_cfg_range (ac_name c)
   && forallb (fun d => is_byte (c_da d) && match c_sa d with Some s => is_byte s | None => true end) (ac_confs c).
 
 Definition zl_eqb (a b : list Z) : bool := if list_eq_dec Z.eq_dec a b then true else false.
 
 (* the address-claim frame: priority 6, PGN 60928 to the global address, from our address *)
 Definition claim_ok (c : acase) (f : frame) : bool :=
-  (f_id f =? 6 * 67108864 + 60928 * 256 + 255 * 256 + ac_addr c) && zl_eqb (f_data f) (le64 (name_value (ac_name c))).
+  (f_id f =? 6 * 67108864 + 60928 * 256 + 255 * 256 + ac_addr c) && zl_eqb (f_data f) (le64 (name_value (name_norm (ac_name c)))).
 
 (* the units that must be driven: configured entries with a known (vendor, product), in order *)
 Definition expected_units (c : acase) : list (Z * Z * Z) :=   (* key, unit address, source address *)
@@ -56,7 +66,7 @@ Definition expected_reply (c : acase) (raw : list Z) : option (option frame) :=
       let f := normalise f0 in
       if (id_pgn (f_id f) =? 59904) && (match id_da (f_id f) with Some d => d =? ac_addr c | None => false end) then
         let p := (nth 0 (f_data f) 255 + 256 * nth 1 (f_data f) 255 + 65536 * nth 2 (f_data f) 255) mod 262144 in
-        if p =? 60928 then Some (Some {| f_id := 6 * 67108864 + 60928 * 256 + 255 * 256 + ac_addr c; f_data := le64 (name_value (ac_name c)) |})
+        if p =? 60928 then Some (Some {| f_id := 6 * 67108864 + 60928 * 256 + 255 * 256 + ac_addr c; f_data := le64 (name_value (name_norm (ac_name c))) |})
         else if p =? 65242 then Some (Some {| f_id := 6 * 67108864 + 65242 * 256 + ac_addr c; f_data := [1; version_major; version_minor; version_patch; 42] |})
         else if p =? 65254 then Some None
         else None
